@@ -1,7 +1,7 @@
 #!/bin/bash
 # tools/try_seed.sh <patch> <CNN> [more CNN...] : apply a seeded patch to /repo, run the named checks, undo the patch
 patch="$1"; shift
-git -C /repo apply "$patch" || { echo "patch does not apply"; exit 2; }
+patch="$(realpath "$patch")"; git -C /repo apply "$patch" || { echo "patch does not apply"; exit 2; }
 for c in "$@"; do
   out=$(./verify $c --no-evidence 2>&1); rc=$?
   echo "--- $c rc=$rc: $(echo "$out" | tail -1)"
